@@ -173,3 +173,13 @@ ASSUMPTIONS = [
     'no concurrent makeNode while find/union/sameSet run on existing nodes (node count fixed during those calls); makeNode itself is proved sequentially',
 ]
 TRUSTED = ['stubs/atomic', 'units/unionfind/vx_uf.h (scaffold PiggyList over the ghost-visible node array)', 'rewrite rules R1,R2,R3,R5,R8,R9,R11']
+
+MUTANTS = [
+    dict(name='unionNodes: ranks read without re-checking root-ness (the repaired defect)', file=UF, find=r'if \(b2p\(xState\) != x \|\| b2p\(yState\) != y\) continue;', repl='', expect=r'uf\.unionNodes :: .*G\.link', props=['C29']),
+    dict(name='updateRoot: expected rank not compared', file=UF, find=r'if \(nextN != x \|\| rankN != oldrank\) return false;', repl='if (nextN != x) return false;', expect=r'uf\.(updateRoot|unionNodes)', props=['C29']),
+    dict(name='findNode: re-points x to itself', file=UF, find=r'parent_t newParent = b2p\(get\(b2p\(xState\)\)\);', repl='parent_t newParent = x;', expect=r'uf\.findNode', props=['C29']),
+    dict(name='sameSet: false without checking that x is still a root', file=UF, find=r'if \(b2p\(get\(x\)\) == x\) return false;', repl='return false;', expect=r'uf\.sameSet', props=['C29']),
+    dict(name='unionNodes: link direction ignores the ranks', file=UF, find=r'if \(xrank > yrank \|\| \(\(xrank == yrank\) && x > y\)\) \{', repl='if (x > y) {', expect=r'uf\.unionNodes', props=['C29']),
+    dict(name='makeNode: new node starts with rank 1', file=UF, find=r'a_blocks\.get\(nodeDetails\)\.store\(pr2b\(nodeDetails, 0\)\);', repl='a_blocks.get(nodeDetails).store(pr2b(nodeDetails, 1));', expect=r'uf\.makeNode', props=['C29']),
+    dict(name='pr2b: rank field overlaps the parent', file=UF, find=r'return \(\(\(block_t\)parent\) << split_size\) \| rank;', repl='return (((block_t)parent) << (split_size - 1)) | rank;', expect=r'uf\.pack', props=['C29']),
+]
